@@ -141,6 +141,7 @@ package tendermint
 //@   modifies s.state.height, s.state.lockedRound, s.state.lockedValue, s.state.validRound, s.state.validValue, s.state.round, s.state.step, s.state.timeoutPrevoteScheduled, s.state.lockedValueAndOrValidValueSet, s.state.timeoutPrecommitScheduled, s.isHeightStarted, s.voteCounter
 //@   modifies maps
 //@   sets heightFresh = true
+//@   assigns votecounter.calls_TotalVotingPower
 //@   ensures commit: istype(result, *actions.Commit) && cast(result, *actions.Commit) == &cachedProposal.Proposal
 //@   ensures next_height: s.state.height == old(s.state.height) + 1 && s.state.round == 0 && s.state.step == types.StepPropose && !s.isHeightStarted
 //@   ensures unlocked: s.state.lockedRound == -1 && s.state.lockedValue == nil && s.state.validRound == -1 && s.state.validValue == nil
@@ -226,7 +227,7 @@ package tendermint
 //@   requires s != nil && s.state.height < (1<<64) - 1
 //@   modifies s.state.height, s.state.lockedRound, s.state.lockedValue, s.state.validRound, s.state.validValue, s.state.round, s.state.step, s.state.timeoutPrevoteScheduled, s.state.lockedValueAndOrValidValueSet, s.state.timeoutPrecommitScheduled, s.isHeightStarted, s.voteCounter
 //@   modifies maps
-//@   assigns heightFresh, calls_AddPrevote, arg_AddPrevote_prevote, calls_AddPrecommit, arg_AddPrecommit_precommit
+//@   assigns heightFresh, calls_AddPrevote, arg_AddPrevote_prevote, calls_AddPrecommit, arg_AddPrecommit_precommit, votecounter.calls_TotalVotingPower
 //@   ensures one_prevote_at_most: calls_AddPrevote == old(calls_AddPrevote) || (calls_AddPrevote == old(calls_AddPrevote) + 1 && old(s.state.step) == types.StepPropose)
 //@   ensures one_precommit_at_most: calls_AddPrecommit == old(calls_AddPrecommit) || (calls_AddPrecommit == old(calls_AddPrecommit) + 1 && old(s.state.step) == types.StepPrevote)
 
@@ -235,7 +236,7 @@ package tendermint
 //@   trusted
 //@   modifies s.state.height, s.state.lockedRound, s.state.lockedValue, s.state.validRound, s.state.validValue, s.state.round, s.state.step, s.state.timeoutPrevoteScheduled, s.state.lockedValueAndOrValidValueSet, s.state.timeoutPrecommitScheduled, s.isHeightStarted, s.voteCounter
 //@   modifies maps
-//@   assigns heightFresh, calls_AddPrevote, arg_AddPrevote_prevote, calls_AddPrecommit, arg_AddPrecommit_precommit
+//@   assigns heightFresh, calls_AddPrevote, arg_AddPrevote_prevote, calls_AddPrecommit, arg_AddPrecommit_precommit, votecounter.calls_TotalVotingPower
 //@   ensures keeps_prefix: len(result) >= len(resultActions) && (forall j int :: 0 <= j && j < len(resultActions) ==> result[j] == old(resultActions[j]))
 
 //@ extern func github.com/NethermindEth/juno/consensus/types.Message.Header
